@@ -36,8 +36,13 @@ void do_parent_for_pp()
                  __func__, __LINE__, pc->GetOrigLine(), pc->GetOrigCol());
          log_pcf_flags(LMCB, pc->GetFlags());
          size_t level = pc->GetPpLevel();
-         Chunk  *a    = viz.at(level - 1);
-         pc->SetParent(a);
+
+         if (  level >= 1
+            && level - 1 < viz.size())             // an #else without its #if has no parent
+         {
+            Chunk *a = viz.at(level - 1);
+            pc->SetParent(a);
+         }
       }
       else if (pc->Is(CT_PP_ENDIF))
       {
@@ -45,9 +50,17 @@ void do_parent_for_pp()
                  __func__, __LINE__, pc->GetOrigLine(), pc->GetOrigCol());
          log_pcf_flags(LMCB, pc->GetFlags());
          size_t level = pc->GetPpLevel();
-         Chunk  *a    = viz.at(level);
-         pc->SetParent(a);
-         viz.pop_back();
+
+         if (level < viz.size())                   // an #endif without its #if has no parent
+         {
+            Chunk *a = viz.at(level);
+            pc->SetParent(a);
+         }
+
+         if (!viz.empty())
+         {
+            viz.pop_back();
+         }
       }
       pc = pc->GetNextNcNnl();
    }
